@@ -694,68 +694,3 @@ Proof.
   apply b64_reduce; assumption.
 Qed.
 
-(* ---------- Part 7: bytes ---------- *)
-Lemma le_val_app a c : le_val (a ++ c) = le_val a + 256 ^ N.of_nat (length a) * le_val c.
-Proof.
-  induction a as [|x a IH]; [simpl; lia|].
-  cbn [app le_val length]. rewrite IH, Nnat.Nat2N.inj_succ, N.pow_succ_r'. lia.
-Qed.
-
-Lemma le_val_lt l : wfb l -> le_val l < 256 ^ N.of_nat (length l).
-Proof.
-  induction l as [|x l IH]; intros H; [reflexivity|]. inversion H; subst.
-  cbn [le_val length]. rewrite Nnat.Nat2N.inj_succ, N.pow_succ_r'. specialize (IH H3). lia.
-Qed.
-
-Lemma le_val_inj a b : wfb a -> wfb b -> length a = length b -> le_val a = le_val b -> a = b.
-Proof.
-  revert b; induction a as [|x a IH]; intros [|y b] Ha Hb Hl Hv; try discriminate; [reflexivity|].
-  inversion Ha; inversion Hb; subst. cbn [le_val] in Hv. simpl in Hl.
-  assert (x = y) by lia. subst. f_equal. apply IH; auto. lia.
-Qed.
-
-Lemma lxor_hi_add lo hi : lo < 2 ^ 64 -> N.lxor lo (N.shiftl hi 64) = lo + 2 ^ 64 * hi.
-Proof.
-  intros H. rewrite N.shiftl_mul_pow2, (N.mul_comm hi).
-  symmetry. apply N.add_nocarry_lxor. apply N.bits_inj. intros n. rewrite N.land_spec, N.bits_0.
-  destruct (N.lt_ge_cases n 64) as [Hn|Hn].
-  - rewrite N.mul_comm, N.mul_pow2_bits_low by exact Hn. apply andb_false_r.
-  - rewrite (small_bits lo 64 n H Hn). reflexivity.
-Qed.
-
-Lemma fe_of_block_n a : wfb a -> length a = 16%nat -> fe_of_block a = fe_of_n (le_val a).
-Proof.
-  intros Hw Hl. unfold fe_of_block, fe_of_n.
-  rewrite <- (firstn_skipn 8 a) at 3 4. rewrite le_val_app, firstn_length, Hl.
-  change (256 ^ N.of_nat (Nat.min 8 16)) with (2 ^ 64).
-  assert (H1 : le_val (firstn 8 a) < 2 ^ 64).
-  { pose proof (le_val_lt (firstn 8 a) (wfb_firstn 8 a Hw)) as H. rewrite firstn_length, Hl in H. exact H. }
-  assert (H2 : le_val (skipn 8 a) < 2 ^ 64).
-  { pose proof (le_val_lt (skipn 8 a) (wfb_skipn 8 a Hw)) as H. rewrite skipn_length, Hl in H. exact H. }
-  rewrite (firstn_all2 (n := 8) (skipn 8 a)) by (rewrite skipn_length; lia).
-  rewrite !N.land_ones, N.shiftr_div_pow2. f_equal; lia.
-Qed.
-
-Lemma block_of_fe_n x : b64 (fst x) -> b64 (snd x) -> block_of_fe x = le_bytes 16 (n_of_fe' x).
-Proof.
-  intros H1 H2. apply b64_iff in H1. apply b64_iff in H2. destruct x as [lo hi]. cbn [fst snd] in *.
-  unfold block_of_fe, n_of_fe'. cbn [fst snd]. rewrite lxor_hi_add by exact H1.
-  apply le_val_inj.
-  - apply wfb_app. split; apply le_bytes_wf.
-  - apply le_bytes_wf.
-  - rewrite app_length, !le_bytes_length. reflexivity.
-  - rewrite le_val_app, !le_val_le_bytes, le_bytes_length.
-    change (256 ^ N.of_nat 8) with (2 ^ 64). change (256 ^ N.of_nat 16) with (2 ^ 128).
-    rewrite !N.mod_small; lia.
-Qed.
-
-(* polyvalDot on 16-byte blocks = dot of RFC 8452 on their little-endian values *)
-Theorem polyvalDot_blocks a b : wfb a -> wfb b -> length a = 16%nat -> length b = 16%nat ->
-  block_of_fe (polyvalDot (fe_of_block a) (fe_of_block b)) = le_bytes 16 (dot_spec (le_val a) (le_val b)).
-Proof.
-  intros Ha Hb La Lb. pose proof (b64_polyvalDot (fe_of_block a) (fe_of_block b)) as [B1 B2].
-  rewrite block_of_fe_n by assumption. f_equal.
-  rewrite !fe_of_block_n by assumption. apply dot_impl_spec.
-  - pose proof (le_val_lt a Ha) as H. rewrite La in H. exact H.
-  - pose proof (le_val_lt b Hb) as H. rewrite Lb in H. exact H.
-Qed.
